@@ -81,6 +81,7 @@ RULE_TITLES = {
     'R50': 'stored integers of values are written only in freshly built objects (values are immutable)',
     'R51': 'no unbound local or free variable on the count path',
     'R52': 'optional source / comment strings are read whenever a quoted token follows',
+    'R59': 'a rule option with a fixed set of spellings is tested by comparison with one of them, never for truth',
     'R58': 'int() only on tokens that matched a digits-only pattern; the ballot file is opened only by bltRead as utf-8-sig; the driver passes the path',
     'R57': 'every recorded key (quota, votes, surplus, residual, nt_votes, cstate fields ...) is read from the election field of that meaning',
     'R56': 'indexes inside range(len(xs) - k) loops of the counting rules stay inside the list',
@@ -101,7 +102,7 @@ def prop(pid, rules, explanation, decided, declined, assumptions=()):
 
 
 prop('C09',
-     [('R00', cf.r00_helper_semantics), ('R05', cf.r05_status_ownership), ('R06', cf.r06_round_monotone), ('R02', cf.r02_elect_sites), ('R03', bt.r03_batch_cap), ('R03c', bt.r03c_single_defeat_guard), ('R13', qt.r13_quota)],
+     [('R00', cf.r00_helper_semantics), ('R05', cf.r05_status_ownership), ('R06', cf.r06_round_monotone), ('R02', cf.r02_elect_sites), ('R03', bt.r03_batch_cap), ('R03c', bt.r03c_single_defeat_guard), ('R13', qt.r13_quota), ('R48', gs.r48_no_global_writer), ('R17', ti.r17_single_from_breaktie)],
      'Static analysis of /repo source. Status fields are written only inside Candidate; every elect/defeat/'
      'unpend/unelect receiver is drawn (candidate-derivation analysis through the rule-local helpers) from the '
      'status set the transition starts from; unelect only in QPQ on elected candidates; E.round only '
@@ -151,7 +152,7 @@ prop('C19',
       'nothing swallows the interrupt (R45)', 'driver plumbing of the interrupt flag (R46)'],
      ['determinism of the count (needed for "prefix of THE uninterrupted record"): see C20'])
 prop('C17',
-     [('R34', op.r34_layer_order), ('R35', op.r35_forced_closure), ('R36', op.r36_construction_order)],
+     [('R34', op.r34_layer_order), ('R35', op.r35_forced_closure), ('R36', op.r36_construction_order), ('R59', op.r59_enum_options)],
      'Static analysis of /repo source: Options.getopt and the recorded effective options consult the four layers in the '
      'order default < file < command < forced; setopt/update write the right layer; for each rule the property lists as '
      'fixed by statute, every option read by the rule or by its arithmetic class is forced by that rule with a constant; '
@@ -163,7 +164,7 @@ prop('C17',
 prop('C18',
      [('R37', rr.r37_status_changes_logged), ('R38', rr.r38_first_and_last_action), ('R39', rr.r39_tag_agreement),
       ('R40', rr.r40_action_key_flow), ('R41', rr.r41_renderers_read_record), ('R42', rr.r42_dump_arity),
-      ('R03', bt.r03_duplicates), ('R05', cf.r05_status_ownership), ('R44', it.r44_append_only), ('R53', nm.r53_rule_interface), ('R57', rr.r57_recorded_sources)],
+      ('R03', bt.r03_duplicates), ('R05', cf.r05_status_ownership), ('R44', it.r44_append_only), ('R53', nm.r53_rule_interface), ('R57', rr.r57_recorded_sources), ('R25', va.r25_printing)],
      'Static analysis of /repo source: elect/defeat log themselves on every path; the first recorded action of every rule '
      'is begin/count/round and the end action is followed directly by the result assignment; tags agree between emitters, '
      'recorder and renderers; renderers and rule hooks read only action keys that the recorder stores for that kind of '
@@ -187,7 +188,7 @@ prop('C15',
 
 prop('C16',
      [('R31', ps.r31_exception_escape), ('R32', ps.r32_loops_consume), ('R26', ps.r26_cid_sanitiser),
-      ('R27', ps.r27_typecode_capacity), ('R33', ps.r33_cli_handlers), ('R30', ps.r30_validation), ('R53', nm.r53_rule_interface), ('R58', ps.r58_numbers_and_files)],
+      ('R27', ps.r27_typecode_capacity), ('R33', ps.r33_cli_handlers), ('R30', ps.r30_validation), ('R53', nm.r53_rule_interface), ('R58', ps.r58_numbers_and_files), ('R48', gs.r48_no_global_writer)],
      'Static analysis of droop/profile.py and Droop.py: every partial operation reachable from ElectionProfile(data=...) '
      '(next, int, subscripts, local-name loads incl. exception edges, %-formatting, list.remove, array construction, raise) '
      'is discharged, so the escape set is {ElectionProfileError}; every parser loop consumes a token per iteration; accepted '
@@ -197,7 +198,7 @@ prop('C16',
       'in-range IDs only (R26, R27)', 'CLI handler exhaustiveness (R33)'],
      ['"satisfies the invariants of a valid election" beyond R26-R30', 'MemoryError / RecursionError (resource exhaustion)'])
 prop('C12',
-     [('R21', va.r21_scale_rounding), ('R22', va.r22_closure), ('R47', gs.r47_definite_reset)],
+     [('R21', va.r21_scale_rounding), ('R22', va.r22_closure), ('R47', gs.r47_definite_reset), ('R34', op.r34_layer_order)],
      'Abstract interpretation of the method bodies of Fixed (and Guarded) over the domain (scale dimension, number of '
      'rounding steps, operand form): every store to a stored integer has the dimension of a value; each operator and '
      'classmethod computes exactly the form the property prescribes (add/sub/neg/abs/x int exact; * / mul div muldiv one '
@@ -208,7 +209,7 @@ prop('C12',
      ['nothing of the algebra beyond trust in CPython int/divmod and fractions.Fraction'])
 
 prop('C13',
-     [('R23', va.r23_comparisons), ('R21', va.r21_scale_rounding), ('R24', va.r24_guard0_equivalence), ('R25', va.r25_printing), ('R47', gs.r47_definite_reset)],
+     [('R23', va.r23_comparisons), ('R21', va.r21_scale_rounding), ('R24', va.r24_guard0_equivalence), ('R25', va.r25_printing), ('R47', gs.r47_definite_reset), ('R00', cf.r00_helper_semantics), ('R34', op.r34_layer_order)],
      'Static analysis of droop/values/guarded.py: the six comparisons are projections of one three-valued __cmp__ that '
      'returns 0 exactly under |a-b| < 10^guard // 2 (at least 1) and otherwise the sign of the stored difference '
      '(trichotomy follows); the guard == 0 summaries of every Guarded operation equal the Fixed summaries, operation by '
@@ -226,7 +227,7 @@ prop('C14',
      ['digit-exactness of the printed string for a given value (needs evaluation)'])
 prop('C07',
      [('R00', cf.r00_helper_semantics), ('R15', ti.r15_tie_funnel), ('R16', ti.r16_extremum_polarity), ('R17', ti.r17_single_from_breaktie),
-      ('R18', ti.r18_sure_loser_strict), ('R03', bt.r03_batch_cap), ('R55', gr.r55_qpq_stage)],
+      ('R18', ti.r18_sure_loser_strict), ('R03', bt.r03_batch_cap), ('R55', gr.r55_qpq_stage), ('R59', op.r59_enum_options)],
      'Static analysis of /repo source: the tie order is consulted only inside the rules\' breakTie functions, which log '
      'every tie among several candidates and return the first in the declared order; the set handed to breakTie for an '
      'exclusion is the arg-min set of the tally over the hopefuls (within the surplus for Meek), for a surplus the arg-max '
@@ -239,7 +240,7 @@ prop('C07',
 
 prop('C11',
      [('R15', ti.r15_tie_funnel), ('R17', ti.r17_single_from_breaktie), ('R05', cf.r05_status_ownership),
-      ('R28', ps.r28_strip_complete), ('R26', ps.r26_cid_sanitiser), ('R16', ti.r16_extremum_polarity), ('R03b', bt.r03b_defeat_remaining)],
+      ('R28', ps.r28_strip_complete), ('R26', ps.r26_cid_sanitiser), ('R16', ti.r16_extremum_polarity), ('R03b', bt.r03b_defeat_remaining), ('R00', cf.r00_helper_semantics)],
      'Static analysis of /repo source: candidates are singled out for a decision only through the declared tie order (never '
      'by position, id or ballot order); withdrawn candidates are never in a selection that receives an action; every '
      'withdrawn id is removed from every rank at parse time; only validated ids can be marked withdrawn. ' + NOT_BEHAVIOUR,
@@ -248,7 +249,7 @@ prop('C11',
      ['equality of winners/tallies under renumbering and record equality with the candidate deleted (metamorphic, two runs)'])
 prop('C06',
      [('R00', cf.r00_helper_semantics), ('R07', gr.r07_transfer_once), ('R08', gr.r08_reset_pairing), ('R09', gr.r09_reweighting), ('R21', va.r21_scale_rounding),
-      ('R13', qt.r13_quota), ('R20', gr.r20_order_free_loops), ('R22', va.r22_closure)],   # R13: a surplus is non-negative only if the election test implies tally >= quota in the arithmetic's own order
+      ('R13', qt.r13_quota), ('R20', gr.r20_order_free_loops), ('R22', va.r22_closure), ('R48', gs.r48_no_global_writer), ('R17', ti.r17_single_from_breaktie)],   # R13: a surplus is non-negative only if the election test implies tally >= quota in the arithmetic's own order
      'Static analysis of the five Gregory-family rules: transfer() credits every ballot exactly once (candidate or '
      'non-transferable total) and walks to the next continuing candidate; tallies are written only by the first count, '
      'transfer() and the two resets, each reset preceded by the transfer of every ballot standing to that candidate; ballot '
@@ -261,7 +262,7 @@ prop('C06',
 
 prop('C10',
      [('R19', gr.r19_multiplier_last), ('R20', gr.r20_order_free_loops), ('R21', va.r21_scale_rounding), ('R29', ps.r29_ballot_count_pairing),
-      ('R26d', ps.r26d_tokenizer_precedence), ('R26', ps.r26_cid_sanitiser), ('R58', ps.r58_numbers_and_files)],
+      ('R26d', ps.r26d_tokenizer_precedence), ('R26', ps.r26_cid_sanitiser), ('R58', ps.r58_numbers_and_files), ('R00', cf.r00_helper_semantics), ('R55', gr.r55_qpq_stage), ('R49', gs.r49_per_election_objects)],
      'Static analysis: the ballot multiplier only ever multiplies a finished (already rounded) per-ballot quantity and the '
      'product only feeds additive accumulators; no weight or keep computation has the multiplier among its inputs; ballot '
      'loops only accumulate (no break/return, no plain store to shared state); additions are exact (R21), so neither the '
@@ -271,7 +272,7 @@ prop('C10',
      ['equality of whole records under re-presentation (metamorphic)', 'tokenizer layout/comment/nickname behaviour'])
 prop('C08',
      [('R00', cf.r00_helper_semantics), ('R10', mk.r10_residual_pairing), ('R10c', mk.r10c_keep_split), ('R11', mk.r11_keep_factors), ('R12', mk.r12_iteration_exits),
-      ('R14', qt.r14_elect_before_exclude), ('R04', lp.r04_loops), ('R21', va.r21_scale_rounding), ('R29', ps.r29_ballot_count_pairing), ('R19', gr.r19_multiplier_last), ('R20', gr.r20_order_free_loops), ('R22', va.r22_closure), ('R57', rr.r57_recorded_sources)],
+      ('R14', qt.r14_elect_before_exclude), ('R04', lp.r04_loops), ('R21', va.r21_scale_rounding), ('R29', ps.r29_ballot_count_pairing), ('R19', gr.r19_multiplier_last), ('R20', gr.r20_order_free_loops), ('R22', va.r22_closure), ('R57', rr.r57_recorded_sources), ('R59', op.r59_enum_options)],
      'Static analysis of meek.py and meek_prf.py: in every block of the distribution loops the expressions credited to a '
      'tally are exactly those debited from the ballot residual, residuals start at the multiplier and are summed once per '
      'ballot, tallies and the round residual are zeroed first (with exact add/sub, R21, votes + residual = ballots); keep '
@@ -297,7 +298,7 @@ prop('C04',
 
 prop('C02',
      [('R00', cf.r00_helper_semantics), ('R07', gr.r07_transfer_once), ('R08', gr.r08_reset_pairing), ('R09', gr.r09_reweighting), ('R10', mk.r10_residual_pairing), ('R10b', mk.r10b_redistribute_before_record), ('R10c', mk.r10c_keep_split), ('R29', ps.r29_ballot_count_pairing),
-      ('R19', gr.r19_multiplier_last), ('R21', va.r21_scale_rounding), ('R22', va.r22_closure), ('R37', rr.r37_status_changes_logged), ('R20', gr.r20_order_free_loops), ('R54', gr.r54_qpq_reweight), ('R55', gr.r55_qpq_stage), ('R57', rr.r57_recorded_sources)],
+      ('R19', gr.r19_multiplier_last), ('R21', va.r21_scale_rounding), ('R22', va.r22_closure), ('R37', rr.r37_status_changes_logged), ('R20', gr.r20_order_free_loops), ('R54', gr.r54_qpq_reweight), ('R55', gr.r55_qpq_stage), ('R57', rr.r57_recorded_sources), ('R05', cf.r05_status_ownership), ('R49', gs.r49_per_election_objects), ('R48', gs.r48_no_global_writer)],
      'Static analysis of the bookkeeping shape that conservation rests on: a transferred ballot is credited exactly once '
      '(candidate or non-transferable total); a tally is reset only after all its ballots were passed on; transfer values '
      'are old x surplus / tally rounded down (a transfer cannot create votes); Meek credits and residual debits are the same '
